@@ -319,7 +319,7 @@ def start_tasks(tier, role, progress=True):
                 dict(nsenders=3, iters=2, max_len=[1, 1], timed=True, cut='one'),
                 dict(nsenders=3, iters=1, max_len=2, timed=True, cut='one'),
                 dict(nsenders=2, iters=2, max_len=[2, 1], timed=False, cut='each', adaptive=True, max_timeouts=2),
-                dict(nsenders=1, iters=3, max_len=3, timed=True, cut='any')]
+                dict(nsenders=1, iters=2, max_len=[3, 2], timed=True, cut='any')]
     for c in cfgs:
         nm = 'start_n%d_i%d_l%s_%s_%s%s' % (c['nsenders'], c['iters'], c['max_len'], 'ts' if c['timed'] else 'items',
                                             c['cut'], '_adaptive' if c.get('adaptive') else '')
